@@ -11,3 +11,13 @@ from sa.core import canon
 ref2 = canon.make_reference(os.path.join(os.environ.get("VERIF_REPO", "/repo"), "src/wikitextprocessor"))
 json.dump(ref2, open(canon.REF_PATH, "w"), indent=0, ensure_ascii=False)
 print("names:", sum(len(v["functions"]) for v in ref2.values()), "functions,", sum(len(v["constants"]) for v in ref2.values()), "module constants ->", canon.REF_PATH)
+
+from sa.core import lua as L
+luadir = os.path.join(os.environ.get("VERIF_REPO", "/repo"), "src/wikitextprocessor/lua")
+ref3 = {}
+for fn in sorted(os.listdir(luadir)):
+    if fn.endswith(".lua"):
+        ch = L.parse(open(os.path.join(luadir, fn), encoding="utf-8").read(), fn)
+        ref3[fn] = {"functions": L.function_names(ch), "locals": L.chunk_locals(ch)}
+json.dump(ref3, open(L.LUA_REF_PATH, "w"), indent=0, ensure_ascii=False)
+print("lua functions:", sum(len(v["functions"]) for v in ref3.values()), "->", L.LUA_REF_PATH)
